@@ -2,6 +2,8 @@ import AlphaG.Model.Pwb
 import AlphaG.Lemmas.Bytes
 import AlphaG.Lemmas.PwbMask
 import AlphaG.Lemmas.PwbBlocks
+import AlphaG.Lemmas.PwbWave
+import AlphaG.Lemmas.PwbEncode
 /-
 C05 — PWB v2 packet decoding is exact and every sent channel has its full waveform
 (and the PWB-packet part of C01: totality of `PwbV2Packet::try_from(&[u8])`, `waveform_at`,
@@ -277,5 +279,285 @@ theorem pwb_total (b : List UInt8) : NoPanic (decodePwb b) := by
   apply noPanic_need (by simp only [decide_eq_true_eq]; omega)
   ie _h7
   exact noPanic_ok _
+
+/-! ### Channel lists and the readout mapping -/
+
+/-- C05 (channel lists): the sent and over-threshold lists are the set bits of the two masks in
+ascending order (mask bit `i` is readout index `i + 1`), each mapped through
+`ChannelId::try_from`. -/
+theorem pwb_channels_sent (b : List UInt8) (p : PwbPacket) (h : decodePwb b = .ok p) :
+    p.channelsSent.map some
+        = ((List.range 79).filter (fun i => (leAt b 24 10).testBit i)).map
+            (fun i => readoutToChannel (i + 1))
+    ∧ p.channelsOverThreshold.map some
+        = ((List.range 79).filter (fun i => (leAt b 34 10).testBit i)).map
+            (fun i => readoutToChannel (i + 1))
+    ∧ p.channelsSent.Nodup ∧ p.channelsOverThreshold.Nodup := by
+  rw [pwb_fields b p h]
+  exact ⟨chansOf_map_some _ (sentBits_lt b), chansOf_map_some _ (thrBits_lt b),
+    chansOf_nodup _ (sentBits_lt b) (setBits_nodup _ _),
+    chansOf_nodup _ (thrBits_lt b) (setBits_nodup _ _)⟩
+
+/-- C05/C01 (readout mapping): `ChannelId::try_from(u16)` is defined exactly on 1..=79, never
+underflows, is injective there, and is onto the 3 reset + 4 FPN + 72 pad channel ids. -/
+theorem readout_bijective :
+    (∀ i, (readoutToChannel i).isSome = true ↔ 1 ≤ i ∧ i ≤ 79)
+    ∧ (∀ i, readoutUnderflows i = false)
+    ∧ (∀ i j c, readoutToChannel i = some c → readoutToChannel j = some c → i = j)
+    ∧ (∀ i c, readoutToChannel i = some c → c.Valid)
+    ∧ (∀ c : ChannelId, c.Valid → ∃ i, 1 ≤ i ∧ i ≤ 79 ∧ readoutToChannel i = some c) :=
+  ⟨readout_some_iff, readout_no_underflow, fun _ _ _ hi hj => readout_inj hi hj,
+    fun _ _ h => (readout_eq_some h).2.2.1,
+    fun c hc => ⟨channelToReadout c, (readout_right_inv c hc).1, (readout_right_inv c hc).2.1,
+      (readout_right_inv c hc).2.2⟩⟩
+
+/-! ### Waveforms -/
+
+theorem data_length (b : List UInt8) (w : PwbWellFormed b) :
+    (i16s (b.drop 52)).length = spc (leAt b 22 2) * (sentBits b).length + 2 := by
+  rw [i16s_length, List.length_drop, w.length, ← bpc_eq_blockBytes, bpc_eq_two_spc, Nat.mul_assoc]
+  generalize spc (leAt b 22 2) * (sentBits b).length = q
+  omega
+
+/-- C05 (waveforms): the waveform of the `k`-th sent channel is exactly the `requested_samples`
+little-endian `i16` samples of its block (which starts at `blockOff b k`, after the 4 header
+bytes); a channel that was not sent has no waveform; `waveform_at` never panics. -/
+theorem pwb_waveform (b : List UInt8) (p : PwbPacket) (h : decodePwb b = .ok p) :
+    (∀ k (hk : k < p.channelsSent.length),
+      waveformAt p p.channelsSent[k] = .ok (some ((List.range p.requestedSamples).map
+        (fun j => toSigned 16 (leAt b (blockOff b k + 4 + 2 * j) 2)))))
+    ∧ (∀ c, c ∉ p.channelsSent → waveformAt p c = .ok none) := by
+  obtain ⟨w, rfl⟩ := (decodePwb_ok_iff b p).1 h
+  constructor
+  · intro k hk
+    have hn : (chansOf (sentBits b)).length = (sentBits b).length :=
+      chansOf_length _ (sentBits_lt b)
+    have hk' : k < (sentBits b).length := by simpa [fields, hn] using hk
+    have hnd : (chansOf (sentBits b)).Nodup := chansOf_nodup _ (sentBits_lt b) (setBits_nodup _ _)
+    have hpos : position? (fields b).channelsSent[k] (fields b).channelsSent = some k :=
+      position?_getElem _ hnd k hk
+    have hdl := data_length b w
+    have hs := spc_ge (leAt b 22 2)
+    have hm : spc (leAt b 22 2) * (k + 1) ≤ spc (leAt b 22 2) * (sentBits b).length :=
+      Nat.mul_le_mul_left _ hk'
+    rw [Nat.mul_succ] at hm
+    have hL := w.length
+    rw [← bpc_eq_blockBytes, bpc_eq_two_spc] at hL
+    have hwin := i16s_window b 52 (spc (leAt b 22 2) * k + 2) (leAt b 22 2) (by
+      rw [hL, Nat.mul_assoc]
+      generalize spc (leAt b 22 2) * (sentBits b).length = q at *
+      generalize spc (leAt b 22 2) * k = r at *
+      omega)
+    unfold waveformAt
+    rw [hpos]
+    simp only [reduceCtorEq, if_false, Option.getD_some]
+    have e1 : (fields b).requestedSamples = leAt b 22 2 := rfl
+    have e2 : (fields b).data = i16s (b.drop 52) := rfl
+    rw [e1, e2, need_eq (by simp only [decide_eq_true_eq]; omega),
+      need_eq (by simp only [decide_eq_true_eq]; omega), hwin]
+    congr 2
+    apply List.map_congr_left
+    intro j _
+    unfold blockOff
+    rw [← bpc_eq_blockBytes, bpc_eq_two_spc]
+    congr 2
+    rw [Nat.mul_add, Nat.mul_assoc]
+    omega
+  · intro c hc
+    unfold waveformAt
+    rw [(position?_eq_none_iff c _).2 hc]
+    simp
+
+/-- C01 (totality of `waveform_at`): on a decoded packet `waveform_at` never panics, for any
+channel id. -/
+theorem waveformAt_total (b : List UInt8) (p : PwbPacket) (h : decodePwb b = .ok p)
+    (c : ChannelId) : NoPanic (waveformAt p c) := by
+  obtain ⟨h1, h2⟩ := pwb_waveform b p h
+  by_cases hc : c ∈ p.channelsSent
+  · obtain ⟨k, hk, rfl⟩ := List.mem_iff_getElem.1 hc
+    rw [h1 k hk]; exact noPanic_ok _
+  · rw [h2 c hc]; exact noPanic_ok _
+
+/-! ### Round trip -/
+
+theorem ofNat_bytes (b : List UInt8) (i : Nat) : ∀ k, i + k ≤ b.length →
+    (List.range k).map (fun j => UInt8.ofNat (byteAt b (i + j))) = (b.drop i).take k
+  | 0, _ => by simp
+  | k + 1, h => by
+    rw [List.range_succ, List.map_append, ofNat_bytes b i k (by omega), List.take_add,
+      List.drop_drop]
+    simp only [List.map_cons, List.map_nil]
+    rw [take1 b (i + k) (by omega)]
+
+theorem boardOfMac_mac (b : List UInt8) (w : PwbWellFormed b) :
+    ((boardOfMac (macOf b)).getD ("", [], 0)).2.1 = macOf b := by
+  have hne := (boardOfMac_ne_none (macOf b)).2 w.mac
+  cases hm : boardOfMac (macOf b) with
+  | none => exact absurd hm hne
+  | some t =>
+    unfold boardOfMac at hm
+    have := List.find?_some hm
+    simpa using this
+
+/-- The encoding of the `k`-th sent channel's block is the `k`-th `bpc`-byte window of the data
+section. -/
+theorem encodeBlock_eq (b : List UInt8) (w : PwbWellFormed b) (h : decodePwb b = .ok (fields b))
+    (k : Nat) (hk : k < (chansOf (sentBits b)).length) :
+    encodeBlock (fields b) (chansOf (sentBits b))[k]
+      = ((b.drop 52).drop (bpc (leAt b 22 2) * k)).take (bpc (leAt b 22 2)) := by
+  have hn : (chansOf (sentBits b)).length = (sentBits b).length :=
+    chansOf_length _ (sentBits_lt b)
+  have hk' : k < (sentBits b).length := by rw [← hn]; exact hk
+  have hw := (pwb_waveform b _ h).1 k hk
+  have hc := (readout_eq_some (chansOf_getElem _ (sentBits_lt b) k hk hk')).2.2.2
+  obtain ⟨b1, b2, b3⟩ := w.blocks k hk'
+  have hL := w.length
+  have hm : blockBytes (leAt b 22 2) * (k + 1) ≤ blockBytes (leAt b 22 2) * (sentBits b).length :=
+    Nat.mul_le_mul_left _ hk'
+  rw [Nat.mul_succ] at hm
+  have e1 : (fields b).requestedSamples = leAt b 22 2 := rfl
+  have e2 : (fields b).channelsSent = chansOf (sentBits b) := rfl
+  simp only [e2] at hw
+  unfold encodeBlock
+  rw [hw, hc, e1, ← b1]
+  simp only []
+  rw [List.drop_drop, bpc_eq_blockBytes]
+  unfold blockOff at b1 b2 b3 ⊢
+  generalize hoff : 52 + blockBytes (leAt b 22 2) * k = off at *
+  have hbb : blockBytes (leAt b 22 2) = 4 + 2 * leAt b 22 2 + (if leAt b 22 2 % 2 = 1 then 2 else 0) := rfl
+  rw [leBytes_leAt b off 2 (by omega)]
+  have hsz : leBytes (leAt b 22 2) 2 = (b.drop (off + 2)).take 2 := by
+    rw [← b2]; exact leBytes_leAt b (off + 2) 2 (by omega)
+  rw [hsz, waveBytes_range b (off + 4) (leAt b 22 2) (by omega)]
+  have cat : ∀ a c, (b.drop off).take (a + c) = (b.drop off).take a ++ (b.drop (off + a)).take c := by
+    intro a c; rw [List.take_add, List.drop_drop]
+  by_cases ho : leAt b 22 2 % 2 = 0
+  · have hne : ¬leAt b 22 2 % 2 = 1 := by omega
+    rw [if_pos ho, hbb, if_neg hne, List.append_nil,
+      show 4 + 2 * leAt b 22 2 + 0 = (2 + 2) + 2 * leAt b 22 2 by omega,
+      cat (2 + 2) (2 * leAt b 22 2), cat 2 2]
+  · have h1 : leAt b 22 2 % 2 = 1 := by omega
+    have hz : ([0, 0] : List UInt8) = leBytes (leAt b (off + 4 + 2 * leAt b 22 2) 2) 2 := by
+      rw [b3 h1]; rfl
+    rw [if_neg ho, hbb, if_pos h1, hz, leBytes_leAt b _ 2 (by omega),
+      show 4 + 2 * leAt b 22 2 + 2 = ((2 + 2) + 2 * leAt b 22 2) + 2 by omega,
+      cat ((2 + 2) + 2 * leAt b 22 2) 2, cat (2 + 2) (2 * leAt b 22 2), cat 2 2]
+    simp only [Nat.reduceAdd, Nat.add_assoc]
+
+/-- C05 (round trip): re-encoding the accessors of an accepted packet (header fields, the two
+channel lists, `waveform_at` of every sent channel) in the documented layout reproduces the
+input bytes exactly. -/
+theorem pwb_roundtrip (b : List UInt8) (p : PwbPacket) (h : decodePwb b = .ok p) :
+    encodePwb p = b := by
+  obtain ⟨w, rfl⟩ := (decodePwb_ok_iff b p).1 h
+  have hn : (chansOf (sentBits b)).length = (sentBits b).length :=
+    chansOf_length _ (sentBits_lt b)
+  have hL := w.length
+  have h56 := w.minLen
+  have hb1 := byteAt_lt b 1
+  -- the data section
+  have hblocks : (fields b).channelsSent.flatMap (encodeBlock (fields b))
+      = (b.drop 52).take (bpc (leAt b 22 2) * (sentBits b).length) := by
+    rw [← hn]
+    exact flatMap_blocks _ _ _ _ (fun k hk => encodeBlock_eq b w h k hk)
+  rw [bpc_eq_blockBytes] at hblocks
+  generalize hB : blockBytes (leAt b 22 2) * (sentBits b).length = B at *
+  have hmark : ([0xCC, 0xCC, 0xCC, 0xCC] : List UInt8) = (b.drop (52 + B)).take 4 := by
+    have : ([0xCC, 0xCC, 0xCC, 0xCC] : List UInt8) = leBytes (leAt b (b.length - 4) 4) 4 := by
+      rw [w.marker]; rfl
+    rw [this, leBytes_leAt b _ 4 (by omega), show b.length - 4 = 52 + B by omega]
+  -- the 52 header bytes
+  have p0 : ([2, UInt8.ofNat (65 + (fields b).afterId), UInt8.ofNat (fields b).compression,
+      UInt8.ofNat (fields b).triggerSource] : List UInt8) = (b.drop 0).take 4 := by
+    rw [← ofNat_bytes b 0 4 (by omega)]
+    have e : 65 + (fields b).afterId = byteAt b 1 := by
+      show 65 + (byteAt b 1 - 65) = byteAt b 1
+      have := w.chip; omega
+    have e0 : (2 : UInt8) = UInt8.ofNat (byteAt b 0) := by rw [w.version]; rfl
+    rw [e, e0]; rfl
+  have p1 : (fields b).mac.map UInt8.ofNat = (b.drop 4).take 6 := by
+    show (((boardOfMac (macOf b)).getD ("", [], 0)).2.1).map UInt8.ofNat = _
+    rw [boardOfMac_mac b w, ← ofNat_bytes b 4 6 (by omega)]; rfl
+  have p2 : leBytes (fields b).triggerDelay 2 = (b.drop 10).take 2 := leBytes_leAt b 10 2 (by omega)
+  have p3 : leBytes (fields b).triggerTimestamp 6 = (b.drop 12).take 6 :=
+    leBytes_leAt b 12 6 (by omega)
+  have p4 : ([0, 0] : List UInt8) = (b.drop 18).take 2 := by
+    rw [← ofNat_bytes b 18 2 (by omega)]
+    show _ = [UInt8.ofNat (byteAt b (18 + 0)), UInt8.ofNat (byteAt b (18 + 1))]
+    rw [show 18 + 0 = 18 by rfl, show 18 + 1 = 19 by rfl, w.zero1819.1, w.zero1819.2]; rfl
+  have p5 : leBytes (fields b).lastScaCell 2 = (b.drop 20).take 2 := leBytes_leAt b 20 2 (by omega)
+  have p6 : leBytes (fields b).requestedSamples 2 = (b.drop 22).take 2 :=
+    leBytes_leAt b 22 2 (by omega)
+  have p7 : leBytes (maskOf (fields b).channelsSent) 10 = (b.drop 24).take 10 := by
+    show leBytes (maskOf (chansOf (setBits (leAt b 24 10) 79))) 10 = _
+    rw [maskOf_setBits _ (mask_lt_of_bit79 b 24 w.sentBit79)]
+    exact leBytes_leAt b 24 10 (by omega)
+  have p8 : leBytes (maskOf (fields b).channelsOverThreshold) 10 = (b.drop 34).take 10 := by
+    show leBytes (maskOf (chansOf (setBits (leAt b 34 10) 79))) 10 = _
+    rw [maskOf_setBits _ (mask_lt_of_bit79 b 34 w.thrBit79)]
+    exact leBytes_leAt b 34 10 (by omega)
+  have p9 : leBytes (fields b).eventCounter 4 = (b.drop 44).take 4 := leBytes_leAt b 44 4 (by omega)
+  have p10 : leBytes (fields b).fifoMaxDepth 2 = (b.drop 48).take 2 := leBytes_leAt b 48 2 (by omega)
+  have p11 : ([UInt8.ofNat (fields b).eventDescriptorWriteDepth,
+      UInt8.ofNat (fields b).eventDescriptorReadDepth] : List UInt8) = (b.drop 50).take 2 := by
+    rw [← ofNat_bytes b 50 2 (by omega)]; rfl
+  unfold encodePwb
+  rw [p0, p1, p2, p3, p4, p5, p6, p7, p8, p9, p10, p11, hblocks, hmark]
+  have hend : b.drop (52 + B + 4) = [] := List.drop_eq_nil_of_le (by omega)
+  conv => rhs; rw [← List.drop_zero (l := b), drop_split b 0 4, drop_split b 4 6,
+    drop_split b 10 2, drop_split b 12 6, drop_split b 18 2, drop_split b 20 2,
+    drop_split b 22 2, drop_split b 24 10, drop_split b 34 10, drop_split b 44 4,
+    drop_split b 48 2, drop_split b 50 2, drop_split b 52 B, drop_split b (52 + B) 4, hend]
+  simp only [List.append_assoc, List.append_nil]
+
+/-! ### `suppression_baseline` (C01 part) -/
+
+theorem sum_bounds (lo hi : Int) : ∀ (l : List Int), (∀ x ∈ l, lo ≤ x ∧ x ≤ hi) →
+    lo * l.length ≤ l.sum ∧ l.sum ≤ hi * l.length
+  | [], _ => by simp
+  | x :: l, h => by
+    have hx := h x List.mem_cons_self
+    have ih := sum_bounds lo hi l (fun y hy => h y (List.mem_cons_of_mem _ hy))
+    simp only [List.sum_cons, List.length_cons, Int.natCast_add, Int.mul_add]
+    omega
+
+theorem tdiv64_bounds (s : Int) (h1 : -32768 * 64 ≤ s) (h2 : s ≤ 32767 * 64) :
+    -32768 ≤ Int.tdiv s 64 ∧ Int.tdiv s 64 < 32768 := by
+  by_cases hs : 0 ≤ s
+  · rw [Int.tdiv_eq_ediv_of_nonneg hs]; omega
+  · have : s = -(-s) := by omega
+    rw [this, Int.neg_tdiv, Int.tdiv_eq_ediv_of_nonneg (by omega)]; omega
+
+/-- C01 (totality of `suppression_baseline`): for every slice of `i16` samples the function
+returns `Ok`/`Err`; the `i32` sum cannot overflow and the mean always fits an `i16`. -/
+theorem baseline_total (w : List Int) (hw : ∀ x ∈ w, -32768 ≤ x ∧ x ≤ 32767) :
+    NoPanic (suppressionBaseline w) := by
+  unfold suppressionBaseline
+  apply noPanic_ite_err; intro hlen
+  have hl : ((w.drop 4).take 64).length = 64 := by
+    rw [List.length_take, List.length_drop]; omega
+  have hb := sum_bounds (-32768) 32767 ((w.drop 4).take 64)
+    (fun x hx => hw x (List.mem_of_mem_drop (List.mem_of_mem_take hx)))
+  rw [hl] at hb
+  have ht := tdiv64_bounds ((w.drop 4).take 64).sum (by omega) (by omega)
+  apply noPanic_need (by simp only [decide_eq_true_eq]; omega)
+  apply noPanic_need (by simp only [decide_eq_true_eq]; omega)
+  apply noPanic_need (by simp only [decide_eq_true_eq]; omega)
+  apply noPanic_need (by simp only [decide_eq_true_eq]; exact ⟨by omega, by omega⟩)
+  exact noPanic_ok _
+
+/-! ### Non-vacuity -/
+
+/-- The documentation's example packet (tests.rs `ODD_PWB_V2_PACKET`): 3 channels, 5 samples. -/
+def docPacket : List UInt8 :=
+  [2, 68, 0, 0, 236, 40, 255, 135, 84, 2, 1, 0, 2, 0, 0, 0, 0, 0, 0, 0, 3, 0, 5, 0, 0, 0, 0, 0, 0,
+   0, 0, 1, 1, 1, 1, 1, 1, 0, 0, 0, 0, 0, 0, 0, 4, 0, 0, 0, 5, 0, 6, 7, 57, 0, 5, 0, 1, 2, 3, 4,
+   5, 6, 7, 8, 9, 10, 0, 0, 65, 0, 5, 0, 11, 12, 13, 14, 15, 16, 17, 18, 19, 20, 0, 0, 73, 0, 5,
+   0, 21, 22, 23, 24, 25, 26, 27, 28, 29, 30, 0, 0, 204, 204, 204, 204]
+
+set_option maxRecDepth 100000 in
+example : (decodePwb docPacket).isOk = true := by decide +kernel
+set_option maxRecDepth 100000 in
+example : encodePwb (fields docPacket) = docPacket := by decide +kernel
 
 end AlphaG.Pwb
